@@ -19,6 +19,27 @@ class Trace(object):
         self.arrays = {}       # array objects the program hands to the writer more than once
 
 
+class _Lifecycle(object):
+    """How the simulated caller brackets a writer session: a with-block, explicit open() ... close(), or - for writers on
+    the caller's own streams, which need no opening - neither."""
+    def __init__(self, writer, how):
+        self.writer, self.how = writer, how
+
+    def __enter__(self):
+        if self.how == 'with':
+            self.writer.__enter__()
+        elif self.how == 'open-close':
+            self.writer.open()
+        return self.writer
+
+    def __exit__(self, *exc):
+        if self.how == 'with':
+            return self.writer.__exit__(*exc)
+        if self.how == 'open-close':
+            self.writer.close()
+        return False
+
+
 def _size(st, sink, name, handles):
     if sink == 'simpath' or sink == 'simstream':
         return len(st.fs.files.get(name, b''))
@@ -66,7 +87,10 @@ def steps_program(st, program, sink, with_index, tr, name='out.tdms', after_sess
             kw = {'index_file': streams[iname] if with_index else False}
         first = call_no
         writer = nptdms.TdmsWriter(target, mode=mode, version=program['version'], **kw)
-        with writer:
+        how = program.get('lifecycle', 'with')
+        if how == 'bare' and sink in ('simpath', 'realpath'):
+            how = 'open-close'          # a writer on a path has to be opened by someone
+        with _Lifecycle(writer, how):
             for call in session:
                 rec = {'accepted': False, 'exc': None}
                 rec['before'] = _size(st, sink, name, streams)
